@@ -1,2 +1,339 @@
+(* Proofs about model/Rewrite.v.
+   Record level: every unflagged record comes out identical; a flagged record keeps
+   attributes, timestamp delta, offset delta, key, loses exactly its LFS_BLOB headers and
+   gets as value the encoding of an envelope whose key is the fresh key handed out for it,
+   whose object (in the store, now and after any later uploads of the request) is the
+   original value, with size and SHA-256 of that value.
+   Batch level: a batch without flagged record is returned as is (same Raw bytes); a
+   rewritten batch is the kmsg encoding of a header that differs from the input header
+   only in Length, CRC, the codec bits and the payload, with Length = len - 12 and
+   CRC = crc32c(bytes[21:]), NumRecords = number of records, payload = compress(encode records);
+   under the codec round-trip hypotheses its records decode back to the rewritten list. *)
 From KS Require Import lib.Base lib.RecVarint model.Rewrite.
 Open Scope Z_scope.
+
+Lemma be_len w v : length (be w v) = w.
+Proof. revert v; induction w as [|w IH]; intros v; cbn; [reflexivity|]. rewrite app_length, IH. cbn. lia. Qed.
+
+Definition batch_tail (b : batch) : bytes :=
+  be 2 (b_attrs b) ++ be 4 (b_lod b) ++ be 8 (b_fts b) ++ be 8 (b_mts b) ++ be 8 (b_pid b) ++
+  be 2 (b_pepoch b) ++ be 4 (b_fseq b) ++ be 4 (b_num b) ++ b_recs b.
+Definition batch_head (b : batch) : bytes :=
+  be 8 (b_first b) ++ be 4 (b_len b) ++ be 4 (b_ple b) ++ be 1 (b_magic b) ++ be 4 (b_crc b).
+
+Lemma enc_batch_split b : enc_batch b = batch_head b ++ batch_tail b.
+Proof. unfold enc_batch, batch_head, batch_tail. now rewrite <- !app_assoc. Qed.
+
+Lemma batch_head_len b : length (batch_head b) = 21%nat.
+Proof. unfold batch_head. now rewrite !app_length, !be_len. Qed.
+
+Lemma skipn_21_enc b : skipn 21 (enc_batch b) = batch_tail b.
+Proof.
+  rewrite enc_batch_split. rewrite <- (batch_head_len b).
+  rewrite skipn_app, skipn_all, Nat.sub_diag. reflexivity.
+Qed.
+
+Lemma enc_batch_len b : zlen (enc_batch b) = 61 + zlen (b_recs b).
+Proof.
+  unfold zlen, enc_batch. rewrite !app_length, !be_len. lia.
+Qed.
+
+Lemma store_get_skip key p new s :
+  ~ In key (map fst new) -> store_get key (new ++ (key, p) :: s) = Some p.
+Proof.
+  induction new as [|[k v] new IH]; intros Hn; cbn.
+  - now rewrite bytes_eqb_refl.
+  - destruct (bytes_eqb k key) eqn:E.
+    + apply bytes_eqb_eq in E. exfalso. apply Hn. cbn. now left.
+    + apply IH. intros H. apply Hn. cbn. now right.
+Qed.
+
+(* the state only grows: consumed oracle entries <-> objects put, most recent first *)
+Definition ext (st st' : ust) : Prop :=
+  exists used new, u_supply st = used ++ u_supply st' /\ u_store st' = new ++ u_store st /\
+                   map fst new = rev (map fst used).
+
+Lemma ext_refl st : ext st st.
+Proof. exists [], []. repeat split. Qed.
+
+Lemma ext_trans a b c : ext a b -> ext b c -> ext a c.
+Proof.
+  intros (u1 & n1 & A1 & A2 & A3) (u2 & n2 & B1 & B2 & B3).
+  exists (u1 ++ u2), (n2 ++ n1). repeat split.
+  - rewrite A1, B1. now rewrite app_assoc.
+  - rewrite B2, A2. now rewrite app_assoc.
+  - rewrite !map_app, rev_app_distr, A3, B3. reflexivity.
+Qed.
+
+Section Proofs.
+  Variable decode_rec : bytes -> option rec.
+  Variable decompress : Z -> bytes -> option bytes.
+  Variable compress : Z -> bytes -> bytes * Z.
+  Variable crc32c : bytes -> Z.
+  Variable hashf : Z -> bytes -> bytes.
+  Variable enc_env : envelope -> bytes.
+
+  Notation process_record := (process_record hashf enc_env).
+  Notation process_records := (process_records hashf enc_env).
+  Notation process_batch := (process_batch decode_rec decompress compress crc32c hashf enc_env).
+  Notation process_batches := (process_batches decode_rec decompress compress crc32c hashf enc_env).
+  Notation process_partition := (process_partition decode_rec decompress compress crc32c hashf enc_env).
+  Notation rebuild_batch := (rebuild_batch crc32c).
+  Notation batch_records := (batch_records decode_rec decompress).
+  Notation read_records := (read_records decode_rec).
+  Notation compress_records := (compress_records compress).
+
+  (* ---------- one record ---------- *)
+  Lemma process_record_unflagged cfg st r :
+    flagged r = false -> process_record cfg st r = Ok (r, st, false).
+  Proof.
+    unfold flagged, Rewrite.process_record. destruct (find_header s_LFS_BLOB (r_hdrs r)); [discriminate|reflexivity].
+  Qed.
+
+  Definition flagged_spec (cfg : config) (st st' : ust) (r r' : rec) : Prop :=
+    r_attr r' = r_attr r /\ r_ts r' = r_ts r /\ r_off r' = r_off r /\ r_key r' = r_key r /\
+    r_hdrs r' = drop_header s_LFS_BLOB (r_hdrs r) /\
+    exists key created env,
+      u_supply st = (key, created) :: u_supply st' /\
+      u_store st' = (key, optb (r_val r)) :: u_store st /\
+      r_val r' = Some (enc_env env) /\ e_key env = key /\ e_bucket env = c_bucket cfg /\
+      e_size env = zlen (optb (r_val r)) /\ e_sha env = hashf 0 (optb (r_val r)).
+
+  Lemma process_record_flagged cfg st r r' st' ch :
+    flagged r = true -> process_record cfg st r = Ok (r', st', ch) ->
+    ch = true /\ flagged_spec cfg st st' r r'.
+  Proof.
+    unfold flagged, Rewrite.process_record. intros Hf H.
+    destruct (find_header s_LFS_BLOB (r_hdrs r)) as [lfsv|]; [|discriminate].
+    destruct (resolve_alg cfg (header_value s_LFS_BLOB_ALG (r_hdrs r))) as [alg|]; [|discriminate].
+    destruct (nonempty (trim_space (optb lfsv)) && (alg =? 3)); [discriminate|].
+    destruct (c_max_blob cfg <? zlen (optb (r_val r))); [discriminate|].
+    destruct (u_supply st) as [|[key created] sup] eqn:Es; [discriminate|].
+    destruct (match u_faults st with [] => (false, []) | f :: fs => (f, fs) end) as [fl faults'].
+    destruct (c_chunk cfg <? zlen (optb (r_val r))); [discriminate|].
+    destruct fl; [discriminate|].
+    match type of H with (if ?c then _ else _) = _ => destruct c end; [discriminate|].
+    match type of H with (if ?c then _ else _) = _ => destruct c end; [discriminate|].
+    inversion H; subst; clear H. split; [reflexivity|].
+    unfold flagged_spec. cbn. repeat split.
+    exists key, created. eexists. cbn. repeat split.
+  Qed.
+
+  Lemma process_record_ext cfg st r r' st' ch :
+    process_record cfg st r = Ok (r', st', ch) -> ext st st'.
+  Proof.
+    intros H. destruct (flagged r) eqn:Hf.
+    - destruct (process_record_flagged _ _ _ _ _ _ Hf H) as (_ & _ & _ & _ & _ & _ & key & created & env & H1 & H2 & _).
+      exists [(key, created)], [(key, optb (r_val r))]. repeat split; assumption.
+    - rewrite process_record_unflagged in H by exact Hf. inversion H; subst. apply ext_refl.
+  Qed.
+
+  (* what C31 says about one input/output record pair, [store] being the object store at
+     the end of the request *)
+  Definition rec_rel (cfg : config) (store : list (bytes * bytes)) (r r' : rec) : Prop :=
+    if flagged r then
+      r_attr r' = r_attr r /\ r_ts r' = r_ts r /\ r_off r' = r_off r /\ r_key r' = r_key r /\
+      r_hdrs r' = drop_header s_LFS_BLOB (r_hdrs r) /\
+      exists env, r_val r' = Some (enc_env env) /\ e_bucket env = c_bucket cfg /\
+                  store_get (e_key env) store = Some (optb (r_val r)) /\
+                  e_size env = zlen (optb (r_val r)) /\ e_sha env = hashf 0 (optb (r_val r))
+    else r' = r.
+
+  Lemma process_records_ext cfg : forall rs st rs' st' ch,
+    process_records cfg st rs = Ok (rs', st', ch) -> ext st st'.
+  Proof.
+    induction rs as [|r rs IH]; intros st rs' st' ch H; cbn in H.
+    - inversion H; subst. apply ext_refl.
+    - destruct (process_record cfg st r) as [[[r1 st1] ch1]| |] eqn:E1; try discriminate.
+      destruct (process_records cfg st1 rs) as [[[rs2 st2] ch2]| |] eqn:E2; try discriminate.
+      inversion H; subst. eapply ext_trans; [eapply process_record_ext; eauto|eapply IH; eauto].
+  Qed.
+
+  Lemma process_records_spec cfg : forall rs st rs' st' ch stF,
+    process_records cfg st rs = Ok (rs', st', ch) ->
+    NoDup (map fst (u_supply st)) -> ext st' stF ->
+    Forall2 (rec_rel cfg (u_store stF)) rs rs'.
+  Proof.
+    induction rs as [|r rs IH]; intros st rs' st' ch stF H Hnd HF; cbn in H.
+    - inversion H; subst. constructor.
+    - destruct (process_record cfg st r) as [[[r1 st1] ch1]| |] eqn:E1; try discriminate.
+      destruct (process_records cfg st1 rs) as [[[rs2 st2] ch2]| |] eqn:E2; try discriminate.
+      inversion H; subst; clear H.
+      pose proof (process_record_ext _ _ _ _ _ _ E1) as X1.
+      pose proof (process_records_ext _ _ _ _ _ _ E2) as X2.
+      constructor.
+      + unfold rec_rel. destruct (flagged r) eqn:Hf.
+        * destruct (process_record_flagged _ _ _ _ _ _ Hf E1) as (_ & A1 & A2 & A3 & A4 & A5 & key & created & env & S1 & S2 & V & K & B & Sz & Sh).
+          repeat split; try assumption. exists env. repeat split; try assumption.
+          destruct (ext_trans _ _ _ X2 HF) as (used & new & U1 & U2 & U3).
+          rewrite U2, S2, K. apply store_get_skip.
+          rewrite U3, <- in_rev. rewrite S1 in Hnd. cbn in Hnd. inversion Hnd as [|? ? Hn Hd]; subst.
+          rewrite U1, map_app in Hn. intros Hin. apply Hn. apply in_or_app. now left.
+        * rewrite process_record_unflagged in E1 by exact Hf. now inversion E1.
+      + eapply IH; [exact E2| |exact HF].
+        destruct X1 as (used & new & U1 & _ & _). rewrite U1, map_app in Hnd.
+        apply NoDup_app_remove_l in Hnd. exact Hnd.
+  Qed.
+
+  Lemma process_records_length cfg : forall rs st rs' st' ch,
+    process_records cfg st rs = Ok (rs', st', ch) -> length rs' = length rs.
+  Proof.
+    induction rs as [|r rs IH]; intros st rs' st' ch H; cbn in H.
+    - now inversion H.
+    - destruct (process_record cfg st r) as [[[r1 st1] ch1]| |]; try discriminate.
+      destruct (process_records cfg st1 rs) as [[[rs2 st2] ch2]| |] eqn:E2; try discriminate.
+      inversion H; subst. cbn. f_equal. eapply IH; eauto.
+  Qed.
+
+  (* ---------- one batch ---------- *)
+  Definition same_header (b b' : batch) : Prop :=
+    b_first b' = b_first b /\ b_ple b' = b_ple b /\ b_magic b' = b_magic b /\ b_lod b' = b_lod b /\
+    b_fts b' = b_fts b /\ b_mts b' = b_mts b /\ b_pid b' = b_pid b /\ b_pepoch b' = b_pepoch b /\
+    b_fseq b' = b_fseq b.
+
+  Lemma rebuild_batch_valid b payload used n b' raw' :
+    rebuild_batch b payload used n = (b', raw') ->
+    raw' = enc_batch b' /\ same_header b b' /\
+    b_len b' = wrap32 (zlen raw' - 12) /\
+    b_crc b' = wrap32 (crc32c (skipn 21 raw')) /\
+    b_attrs b' = wrap16 (b_attrs b - (b_attrs b) mod 8 + used) /\
+    b_num b' = wrap32 n /\ b_recs b' = payload.
+  Proof.
+    unfold Rewrite.rebuild_batch. intros H. inversion H; subst; clear H.
+    split; [reflexivity|]. split; [unfold same_header; cbn; repeat split|].
+    cbn [b_len b_crc b_attrs b_num b_recs]. repeat split.
+    - rewrite !enc_batch_len. reflexivity.
+    - rewrite !skipn_21_enc. reflexivity.
+  Qed.
+
+  Lemma process_batch_unchanged cfg st bt bt' st' :
+    process_batch cfg st bt = Ok (bt', st', false) -> bt' = bt.
+  Proof.
+    unfold Rewrite.process_batch. intros H.
+    destruct (batch_records (fst bt)) as [records|]; [|discriminate].
+    destruct (b_num (fst bt) <? 0); [discriminate|].
+    destruct records as [|r0 records]; [now inversion H|].
+    destruct (process_records cfg st (r0 :: records)) as [[[rs' st1] ch]| |]; try discriminate.
+    destruct (negb ch); [now inversion H|].
+    destruct (compress_records (b_attrs (fst bt) mod 8) (enc_records rs')) as [payload used].
+    destruct (rebuild_batch (fst bt) payload used (zlen rs')) as [b3 raw3]. inversion H.
+  Qed.
+
+  Definition batch_spec (cfg : config) (st st' : ust) (b b' : batch) (raw' : bytes) : Prop :=
+    exists rs rs' used,
+      batch_records b = Some rs /\
+      process_records cfg st rs = Ok (rs', st', true) /\
+      compress_records ((b_attrs b) mod 8) (enc_records rs') = (b_recs b', used) /\
+      raw' = enc_batch b' /\ same_header b b' /\
+      b_len b' = wrap32 (zlen raw' - 12) /\
+      b_crc b' = wrap32 (crc32c (skipn 21 raw')) /\
+      b_attrs b' = wrap16 (b_attrs b - (b_attrs b) mod 8 + used) /\
+      b_num b' = wrap32 (zlen rs').
+
+  Lemma process_batch_changed cfg st b raw b' raw' st' :
+    process_batch cfg st (b, raw) = Ok ((b', raw'), st', true) -> batch_spec cfg st st' b b' raw'.
+  Proof.
+    unfold Rewrite.process_batch. cbn [fst]. intros H.
+    destruct (batch_records b) as [records|] eqn:Eb; [|discriminate].
+    destruct (b_num b <? 0); [discriminate|].
+    destruct records as [|r0 records]; [inversion H|].
+    destruct (process_records cfg st (r0 :: records)) as [[[rs' st1] ch]| |] eqn:Ep; try discriminate.
+    destruct ch; cbn [negb] in H; [|inversion H].
+    destruct (compress_records (b_attrs b mod 8) (enc_records rs')) as [payload used] eqn:Ec.
+    destruct (rebuild_batch b payload used (zlen rs')) as [b3 raw3] eqn:Er.
+    inversion H; subst; clear H.
+    destruct (rebuild_batch_valid _ _ _ _ _ _ Er) as (R1 & R2 & R3 & R4 & R5 & R6 & R7).
+    exists (r0 :: records), rs', used. rewrite R7. repeat split; assumption.
+  Qed.
+
+  Lemma process_batch_ext cfg st bt bt' st' ch :
+    process_batch cfg st bt = Ok (bt', st', ch) -> ext st st'.
+  Proof.
+    unfold Rewrite.process_batch. intros H.
+    destruct (batch_records (fst bt)) as [records|]; [|discriminate].
+    destruct (b_num (fst bt) <? 0); [discriminate|].
+    destruct records as [|r0 records]; [inversion H; subst; apply ext_refl|].
+    destruct (process_records cfg st (r0 :: records)) as [[[rs' st1] c]| |] eqn:Ep; try discriminate.
+    apply process_records_ext in Ep.
+    destruct (negb c); [inversion H; subst; exact Ep|].
+    destruct (compress_records (b_attrs (fst bt) mod 8) (enc_records rs')) as [payload used].
+    inversion H; subst. exact Ep.
+  Qed.
+
+  (* ---------- a partition ---------- *)
+  Lemma process_partition_unchanged cfg st p p' st' :
+    process_partition cfg st p = Ok (p', st', false) -> p' = p.
+  Proof.
+    unfold Rewrite.process_partition. intros H. destruct p as [|x p]; [now inversion H|].
+    destruct (split_batches (S (length (x :: p))) (x :: p)) as [bts|]; [|discriminate].
+    destruct (process_batches cfg st bts) as [[[bts' st1] ch]| |]; try discriminate.
+    destruct ch; now inversion H.
+  Qed.
+
+  (* ---------- re-decoding the rewritten records ---------- *)
+  Definition wf_rec (r : rec) : Prop := zlen (enc_record_body r) < 2147483648.
+
+  Hypothesis decode_encode : forall r, wf_rec r -> decode_rec (enc_record r) = Some r.
+
+  Lemma read_records_encode : forall rs rest,
+    Forall wf_rec rs -> read_records (length rs) (enc_records rs ++ rest) = rs.
+  Proof.
+    induction rs as [|r rs IH]; intros rest Hwf; [reflexivity|].
+    inversion Hwf as [|? ? Hr Hrs]; subst.
+    cbn [length Rewrite.read_records enc_records flat_map].
+    unfold enc_record at 1. fold (enc_records rs).
+    pose proof (zlen_nonneg (enc_record_body r)) as Hpos. unfold wf_rec in Hr.
+    rewrite wrap32_id by lia. rewrite <- !app_assoc.
+    rewrite lfs_varint_put by lia.
+    set (pv := put_varint (zlen (enc_record_body r))).
+    assert (zlen pv + zlen (enc_record_body r) <? 0 = false) as E0.
+    { apply Z.ltb_ge. pose proof (zlen_nonneg pv). lia. }
+    assert (zlen (enc_record_body r) <? 0 = false) as -> by (apply Z.ltb_ge; lia).
+    assert (zlen (pv ++ enc_record_body r ++ enc_records rs ++ rest) <?
+            zlen pv + zlen (enc_record_body r) = false) as ->.
+    { apply Z.ltb_ge. rewrite !zlen_app. pose proof (zlen_nonneg (enc_records rs)). pose proof (zlen_nonneg rest). lia. }
+    cbn [orb].
+    assert (Z.to_nat (zlen pv + zlen (enc_record_body r)) = length (pv ++ enc_record_body r)) as Hn.
+    { rewrite <- zlen_app. unfold zlen. now rewrite Nat2Z.id. }
+    rewrite Hn. rewrite (app_assoc pv). rewrite firstn_app, firstn_all, Nat.sub_diag. cbn [firstn].
+    rewrite app_nil_r. rewrite skipn_app, skipn_all, Nat.sub_diag. cbn [skipn app].
+    change (pv ++ enc_record_body r) with (put_varint (zlen (enc_record_body r)) ++ enc_record_body r).
+    assert (put_varint (zlen (enc_record_body r)) ++ enc_record_body r = enc_record r) as ->.
+    { unfold enc_record. now rewrite wrap32_id by lia. }
+    rewrite decode_encode by exact Hr. f_equal. apply IH. exact Hrs.
+  Qed.
+
+  Hypothesis compress_roundtrip : forall c raw out used,
+    1 <= c <= 4 -> compress c raw = (out, used) -> used = c /\ decompress c out = Some raw.
+
+  (* the rewritten batch decodes (kmsg + kgo, same function the proxy uses) to the rewritten records *)
+  Lemma rewritten_batch_decodes cfg st st' b b' raw' rs' :
+    0 <= (b_attrs b) mod 8 <= 4 -> -32768 <= b_attrs b < 32768 ->
+    batch_spec cfg st st' b b' raw' ->
+    (forall rs, batch_records b = Some rs -> process_records cfg st rs = Ok (rs', st', true) -> True) ->
+    (exists rs, batch_records b = Some rs /\ process_records cfg st rs = Ok (rs', st', true)) ->
+    Forall wf_rec rs' -> zlen rs' < 2147483648 ->
+    (b_attrs b') mod 8 = (b_attrs b) mod 8 /\ batch_records b' = Some rs'.
+  Proof.
+    intros Hc Ha (rs & rs2 & used & B1 & B2 & B3 & _ & _ & _ & _ & B8 & B9) _ (rs0 & E1 & E2) Hwf Hn.
+    rewrite E1 in B1. inversion B1; subst rs0. rewrite E2 in B2. inversion B2; subst rs2. clear B1 B2.
+    unfold Rewrite.compress_records in B3.
+    assert (Hused : used = (b_attrs b) mod 8 /\
+                    (if (b_attrs b) mod 8 =? 0 then Some (b_recs b') else decompress ((b_attrs b) mod 8) (b_recs b')) = Some (enc_records rs')).
+    { destruct ((b_attrs b) mod 8 =? 0) eqn:E0.
+      - inversion B3; subst. apply Z.eqb_eq in E0. auto.
+      - apply Z.eqb_neq in E0.
+        assert ((1 <=? b_attrs b mod 8) && (b_attrs b mod 8 <=? 4) = true) as Hr.
+        { apply andb_true_iff. split; apply Z.leb_le; lia. }
+        rewrite Hr in B3. apply compress_roundtrip in B3; [|lia]. destruct B3; auto. }
+    destruct Hused as [-> Hdec].
+    assert (Hattr : b_attrs b' mod 8 = b_attrs b mod 8).
+    { rewrite B8. replace (b_attrs b - b_attrs b mod 8 + b_attrs b mod 8) with (b_attrs b) by lia.
+      now rewrite wrap16_id. }
+    split; [exact Hattr|].
+    unfold Rewrite.batch_records. rewrite Hattr, Hdec. f_equal.
+    rewrite B9, wrap32_id by (pose proof (zlen_nonneg rs'); lia).
+    unfold zlen. rewrite Nat2Z.id. rewrite <- (app_nil_r (enc_records rs')).
+    apply read_records_encode. exact Hwf.
+  Qed.
+End Proofs.
